@@ -1,6 +1,6 @@
 From Coq Require Import ZArith List Bool Reals Lra.
 From Flocq Require Import Core BinarySingleNaN.
-Require Import GV.FloatBase GV.FloatLemmas GV.AngleM GV.AngleProofs GV.GeonumM GV.GeonumProofs GV.TraitsM GV.NewProofs GV.CtorProofs GV.PiBounds GV.TrigProofs GV.DotValue GV.DirProofs.
+Require Import GV.FloatBase GV.FloatLemmas GV.AngleM GV.AngleProofs GV.GeonumM GV.GeonumProofs GV.TraitsM GV.NewProofs GV.CtorProofs GV.PiBounds GV.TrigProofs GV.DotValue GV.DirProofs GV.DistValue GV.SymProofs.
 Open Scope R_scope.
 Require Import GV.Properties.C12.
 Check C12_rotate : forall g r, mag (grotate g r) = mag g /\ ang (grotate g r) = geometric_add (ang g) r.
@@ -35,3 +35,9 @@ Check C12_reflect_direction : forall g axis, canonp (rem (ang g)) -> Canon (ang 
   Rabs (dirR (ang (reflect g axis)) - (2 * dirR (ang axis) - dir (ang g) + 4 * Rtrigo1.PI))
     <= 3 * R_ eps10 + 7 * / 4503599627370496 + 3 / 10000000000000000.
 Print Assumptions C12_reflect_direction.
+Check C12_double_reflection : forall g axis, Canon (ang g) -> Canon (ang axis) ->
+  let r1 := reflect g axis in let r2 := reflect r1 axis in
+  mag r2 = mag g /\
+  Rabs (cos (dirR (ang r2)) - cos (dir (ang g))) <= 2 * (3 * R_ eps10 + 7 * / 4503599627370496 + 3 / 10000000000000000) /\
+  Rabs (sin (dirR (ang r2)) - sin (dir (ang g))) <= 2 * (3 * R_ eps10 + 7 * / 4503599627370496 + 3 / 10000000000000000).
+Print Assumptions C12_double_reflection.
